@@ -494,3 +494,21 @@ func (f *Frame) AdoptMeta(src Frame) {
 		}
 	}
 }
+
+// BuildPermuted realises f with logical row r stored at physical position pos[r]
+// (pos must be a permutation of 0..n-1); the logical order is restored by a
+// Sort on a key column that is then projected away. As with BuildShape the
+// caller should Observe the result.
+func BuildPermuted(f Frame, pos []int) qframe.QFrame {
+	g, key := physical(f, f.N, pos)
+	kc := Col{Name: keyCol, Kind: Int, Cells: make([]Cell, len(key))}
+	for i, k := range key {
+		kc.Cells[i] = I(k)
+	}
+	g.Cols = append(append([]Col(nil), g.Cols...), kc)
+	q := Build(g).Sort(qframe.Order{Column: keyCol})
+	if len(f.Cols) == 0 {
+		return q.Drop(keyCol)
+	}
+	return q.Select(f.Names()...)
+}
